@@ -102,7 +102,9 @@ def gen_case(rng, i=0):
     conf = [w | 0x00800000 if is_subnormal(w) else w for w in conf]
     if rng.random() < 0.04 and nc:      # TensorFlow treats subnormals as zero: a separate, flagged class
         conf[rng.randrange(nc)] = rng.choice(SUBNORMAL_CONF)
-    fps = rng.choice(FPS_WORDS) if rng.random() < 0.9 else rng.getrandbits(32)
+    # random fps: any sign / mantissa, magnitude within 2^-20 .. 2^20 (flatten's frame / fps column is computed in
+    # float64 by NumPy and float32 by Torch; outside a sane range they overflow differently - unmodelled rounding)
+    fps = rng.choice(FPS_WORDS) if rng.random() < 0.9 else ((rng.getrandbits(1) << 31) | (rng.randrange(107, 148) << 23) | rng.getrandbits(23))
     case = {"dims": [rng.choice([0, 1, 640, 65535]) for _ in range(3)], "comps": comps, "fps": fps, "shape": [F, P, T, D],
             "data": data, "conf": conf, "args": None, "exact": exact}
     if rng.random() < 0.08 and F > 0:
@@ -269,7 +271,7 @@ class C08(common.Prop):
             "confidences from {+-0, 1, .5, .2, negative, NaN, +-inf, denormal, huge, random bits}; data random float32 bits, specials "
             "or small dyadic values), 8% with a frame window; each read by three body classes, converted by torch()/tensorflow(), and "
             "given 4-8 operations (get_points, select_frames, body[int], body[slice], slice_step, matmul square/non-square, zero_filled, "
-            "copy, flatten) incl. out-of-range arguments; ~10% of index/step arguments are outside the common domain "
+            "copy, flatten) incl. out-of-range arguments; fps from {30, 29.97, 25, 1, 60, .001, +-0, NaN, inf, -2} or random with magnitude 2^-20..2^20; ~10% of index/step arguments are outside the common domain "
             "(negative index, empty list, negative step: model correspondence only). matmul values are compared exactly on dyadic "
             "inputs and within 8 float32 ulps of sum|x||m| otherwise, flatten's time column within 4 ulps(float32); everything "
             "else bit-exact. non-trivial = the read succeeds with F*P*T*D > 0; distinct by content hash")
@@ -509,7 +511,8 @@ class C08(common.Prop):
                 return "%s: row (%s) differs" % (what, s[:3])
             with np.errstate(all="ignore"):
                 t = s[0] * (1.0 / fps)
-            if not (r[0] == t or (math.isnan(r[0]) and math.isnan(t)) or abs(r[0] - t) <= 4 * 2.0 ** -24 * abs(t)):
+            if not (r[0] == t or (math.isnan(r[0]) and math.isnan(t)) or abs(r[0] - t) <= 4 * 2.0 ** -24 * abs(t) + 1.5e-45
+                    or (math.isinf(r[0]) and abs(t) >= 3.4e38 and (r[0] > 0) == (t > 0))):
                 return "%s: time column %r vs frame %d / fps %r" % (what, r[0], s[0], fps)
         return None
 
